@@ -169,6 +169,8 @@ def run(rep, tier, seed):
         except Exception as ex_:
             rep.violation("expm raises " + type(ex_).__name__, {"what": repr(ex_)[-300:]})
         rep.case(("expm-rel", it), nontrivial=True)
+    import utpm_replay as U
+    U.dirty_out_check(rep, algopy, ("dot", "dot_mv", "outer"), seed)
     r0 = next(r for r in recs if r["kind"] == "inv" and r["b"] == 2)
     rep.sample({"kind": "inv", "b": r0["b"], "q": r0["q"], "A": r0["inp"][0], "inv": r0["out"]})
     # binding self-test
